@@ -171,7 +171,8 @@ Definition forced_node (acc : list (list Z)) (nd : ntype) : list Z :=
   | TrueN | FalseN => []
   end.
 Definition forceds (C : circuit) : list (list Z) := pass forced_node C.
-Definition conflictb (l1 l2 : list Z) : bool := existsb (fun l => memZ (- l) l2) l1.
+Definition conflictb (l1 l2 : list Z) : bool :=
+  existsb (fun l => negb (l =? 0) && memZ (- l) l2) l1.
 Definition det_cert_node (cnts : list Z) (fs : list (list Z)) (nd : ntype) : bool :=
   match nd with
   | Or cs =>
